@@ -110,7 +110,8 @@ def stepwise(r, w, mode):
             v = [relayout(x) for x in v] if isinstance(v, types.GeneratorType) else relayout(v)
             wr(v)
             continue
-        if mode == "altrepr":
+        if mode in ("altrepr", "altrepr-std"):
+            _ALT_STD[0] = mode == "altrepr-std"
             # every date / time / datetime handed to the writer in one of the other representations the generated writers accept
             # (datetime.datetime, datetime.time, numpy.datetime64 / timedelta64 in ns and in coarser units)
             v = [altrepr(x) for x in v] if isinstance(v, types.GeneratorType) else altrepr(v)
@@ -292,6 +293,7 @@ def run_sm(mod, proto, role, seq, k, real=None):
 
 
 _ALT = [0]
+_ALT_STD = [False]     # only the standard-library representations (datetime.datetime / datetime.time), values that need more precision stay as they are
 
 
 def altrepr(x, depth=0):
@@ -304,6 +306,8 @@ def altrepr(x, depth=0):
     if tn == "DateTime" and hasattr(x, "numpy_value"):
         ns = int(x.numpy_value.astype("int64"))
         _ALT[0] += 1
+        if _ALT_STD[0]:
+            return (datetime.datetime(1970, 1, 1, tzinfo=datetime.timezone.utc if _ALT[0] % 2 else None) + datetime.timedelta(microseconds=ns // 1000)) if ns % 1000 == 0 else x
         if ns % 1000 == 0 and _ALT[0] % 3 != 0:
             us = ns // 1000
             if _ALT[0] % 3 == 1:
@@ -313,7 +317,9 @@ def altrepr(x, depth=0):
     if tn == "Time" and hasattr(x, "numpy_value"):
         ns = int(x.numpy_value.astype("int64"))
         _ALT[0] += 1
-        if ns % 1000 == 0 and _ALT[0] % 2 == 1:
+        if _ALT_STD[0] and ns % 1000:
+            return x
+        if ns % 1000 == 0 and (_ALT[0] % 2 == 1 or _ALT_STD[0]):
             us = ns // 1000
             return datetime.time(us // 3600000000, us // 60000000 % 60, us // 1000000 % 60, us % 1000000)
         if ns % 1000 == 0 and _ALT[0] % 4 == 0:
@@ -323,7 +329,7 @@ def altrepr(x, depth=0):
         return np.timedelta64(ns, "ns")
     if isinstance(x, datetime.date) and not isinstance(x, datetime.datetime):
         _ALT[0] += 1
-        if _ALT[0] % 2:
+        if _ALT[0] % 2 and not _ALT_STD[0]:
             return np.datetime64(x.toordinal() - datetime.date(1970, 1, 1).toordinal(), "D")
         return x
     if isinstance(x, np.ndarray):
